@@ -1,10 +1,14 @@
 #!/bin/sh
-# usage: trymut.sh <patch.diff> <Cxx> [Cyy ...]   -- apply a seeded change to /repo, run the quick checks, undo it.
-P="$1"; shift
-git -C /repo apply "$P" || { echo "patch does not apply"; exit 9; }
+# usage: trymut.sh <patch.diff> <Cxx> [Cyy ...]
+# Maintenance tool (not a registered check): apply a seeded change to a scratch worktree of /repo's HEAD, build that copy
+# into a scratch build directory and run the quick checks against it; /repo, /verif/build, evidence and replays are untouched.
+P="$(readlink -f "$1")"; shift
+W=/tmp/trymut-$$; rm -rf "$W"; mkdir -p "$W"
+git -C /repo worktree add --detach "$W/repo" HEAD >/dev/null 2>&1 || { echo "worktree failed"; exit 9; }
+git -C "$W/repo" apply "$P" || { echo "patch does not apply"; git -C /repo worktree remove --force "$W/repo"; rm -rf "$W"; exit 9; }
 for c in "$@"; do
-  /verif/check "$c" --tier quick > /tmp/trymut-$c.log 2>&1; rc=$?
-  echo "== $c exit=$rc: $(grep -c '^VIOLATION' /tmp/trymut-$c.log) violation lines"; grep -A3 '^VIOLATION' /tmp/trymut-$c.log | grep -E 'signature|case|detail' | head -9
-  tail -1 /tmp/trymut-$c.log | cut -c1-200
+  VERIF_REPO="$W/repo" VERIF_BUILD="$W/build" VERIF_OUT="$W/out" /verif/check "$c" --tier quick > "$W/$c.log" 2>&1; rc=$?
+  echo "== $c exit=$rc: $(grep -c '^VIOLATION' "$W/$c.log") violation lines"; grep -A3 '^VIOLATION' "$W/$c.log" | grep -E 'signature|case|detail' | head -9
+  tail -1 "$W/$c.log" | cut -c1-200
 done
-git -C /repo checkout -- . ; git -C /repo status --short | head -3
+git -C /repo worktree remove --force "$W/repo"; rm -rf "$W"
